@@ -153,7 +153,7 @@ var verifBoot uint64
     s = open(p).read()
     anchor = "func time_runtimeNow() (sec int64, nsec int32, mono int64) {\n\tif bubble := getg().bubble; bubble != nil {\n"
     s = replace_once(s, anchor, anchor +
-                     "\t\tif verifClockTick > 0 {\n\t\t\tlock(&bubble.mu)\n\t\t\tbubble.now += verifClockTick\n"
+                     "\t\tif verifClockTick > 0 && getg().goid == verifTickGoid {\n\t\t\tlock(&bubble.mu)\n\t\t\tbubble.now += verifClockTick\n"
                      "\t\t\tunlock(&bubble.mu)\n\t\t}\n", "time_runtimeNow")
     s += '''
 // verifClockTick is the number of fake nanoseconds each time.Now() inside a synctest bubble costs.
@@ -161,6 +161,13 @@ var verifClockTick int64 = 0
 
 // VerifSetClockTick sets verifClockTick.
 func VerifSetClockTick(ns int64) { verifClockTick = ns }
+
+// verifTickGoid: only this goroutine's clock readings cost a tick (the proxy's event loop), so that the
+// fake clock does not depend on how the scheduler interleaves helper goroutines.
+var verifTickGoid uint64
+
+// VerifTickThisG makes the calling goroutine the one whose time.Now() readings advance the bubble clock.
+func VerifTickThisG() { verifTickGoid = getg().goid }
 '''
     open(od + "/runtime_time.go", "w").write(s)
     rep[p] = od + "/runtime_time.go"
